@@ -20,7 +20,8 @@
 (* the counter before the list; "guard_restore" = the guard of process /    *)
 (* processOne stores the value it saw on entry back on exit (seed S51);     *)
 (* "guard_if_last" = processOne raises the counter only when it took the    *)
-(* last event (seed S76).  Both keep their per-call note in rd[t], which    *)
+(* last event (seed S76); "dqn_dec_split" = ~DisableQueueNotify decrements *)
+(* by a load and a store (seed S111).  Both keep their per-call note in rd[t], which    *)
 (* process / processOne do not use otherwise (markers are not events).      *)
 (* `lastT` is the thread that took the last step (schedules for replay).    *)
 (***************************************************************************)
@@ -78,8 +79,14 @@ NEnd(t) == /\ pc[t] = "n_end" /\ Done(t) /\ enqDone' = IF Op(t).k = "enq" THEN e
 \* ---- DisableQueueNotify ctor / dtor
 DInc(t) == pc[t] = "d_inc" /\ notifyCtr' = notifyCtr + 1 /\ Done(t) /\ UNCHANGED <<q, emptyCtr, mtx, waitset, woken, prog, tmp, rd>> /\ UNCHANGED Gh
 DLock(t) == pc[t] = "d_lock" /\ mtx = 0 /\ mtx' = t /\ Goto(t, "d_dec") /\ UNCHANGED <<q, emptyCtr, notifyCtr, waitset, woken, prog, ip, tmp, rd>> /\ UNCHANGED Gh
-DDec(t) == /\ pc[t] = "d_dec" /\ notifyCtr' = notifyCtr - 1 /\ (IF Fixed("dqn_unlocked") THEN mtx = t /\ mtx' = 0 ELSE UNCHANGED mtx)
+\* defect "dqn_dec_split" (seed S111): the decrement is a load and a store (under the mutex - but the constructor's ++ takes no mutex); the loaded
+\* value (+100: not an event) waits in rd[t], which the destructor does not use otherwise; the counter is kept in 0.. by an offset of 1 while it is "minus one"
+DDec(t) == /\ pc[t] = "d_dec" /\ Fixed("dqn_dec_split") /\ notifyCtr' = notifyCtr - 1 /\ (IF Fixed("dqn_unlocked") THEN mtx = t /\ mtx' = 0 ELSE UNCHANGED mtx)
            /\ Goto(t, "d_cnt") /\ UNCHANGED <<q, emptyCtr, waitset, woken, prog, ip, tmp, rd>> /\ UNCHANGED Gh
+DDecLoad(t) == /\ pc[t] = "d_dec" /\ ~Fixed("dqn_dec_split") /\ rd' = [rd EXCEPT ![t] = <<100 + notifyCtr>>] /\ Goto(t, "d_dec2")
+               /\ UNCHANGED <<q, emptyCtr, notifyCtr, mtx, waitset, woken, prog, ip, tmp>> /\ UNCHANGED Gh
+DDecStore(t) == /\ pc[t] = "d_dec2" /\ notifyCtr' = (IF rd[t][1] = 100 THEN 99 ELSE rd[t][1] - 101) /\ rd' = [rd EXCEPT ![t] = <<>>] /\ mtx = t /\ mtx' = 0
+                /\ Goto(t, "d_cnt") /\ UNCHANGED <<q, emptyCtr, waitset, woken, prog, ip, tmp>> /\ UNCHANGED Gh
 \* dtor: if(canNotify && !emptyQueue()) notify  -- order: counter first, then queue
 DCnt(t) == /\ pc[t] = "d_cnt" /\ IF notifyCtr = 0 THEN Goto(t, "d_q") ELSE Goto(t, "n_end")
            /\ UNCHANGED Sh /\ UNCHANGED <<prog, ip, tmp, rd>> /\ UNCHANGED Gh
@@ -189,11 +196,15 @@ WtEc(t) == /\ pc[t] = "wt_ec" /\ mtx = t
            /\ IF emptyCtr # 0 THEN Goto(t, "wt_cnt") /\ UNCHANGED <<mtx, ip, bad>>
               ELSE mtx' = 0 /\ Done(t) /\ Verdict(t, notifyCtr = 0)
            /\ UNCHANGED <<q, emptyCtr, notifyCtr, waitset, woken, prog, tmp, rd, status, enqDone, snap>>
-WtCnt(t) == /\ pc[t] = "wt_cnt" /\ mtx = t /\ mtx' = 0 /\ Done(t)      \* true iff notification is enabled; false here says nothing about the queue
-            /\ UNCHANGED <<q, emptyCtr, notifyCtr, waitset, woken, prog, tmp, rd>> /\ UNCHANGED Gh
+\* true iff notification is enabled; false while a DisableQueueNotify object exists says nothing about the queue, false with none alive is judged
+\* (the counter must then be 0 again: it counts the objects)
+DqnCount(u, k, upto) == Cardinality({i \in 1..upto : i <= Len(prog[u]) /\ prog[u][i].k = k})
+NoDqnAlive == \A u \in Threads : DqnCount(u, "dqn_on", IF pc[u] = "idle" THEN ip[u] - 1 ELSE ip[u]) = DqnCount(u, "dqn_off", ip[u] - 1)
+WtCnt(t) == /\ pc[t] = "wt_cnt" /\ mtx = t /\ mtx' = 0 /\ Done(t) /\ Verdict(t, notifyCtr # 0 /\ NoDqnAlive)
+            /\ UNCHANGED <<q, emptyCtr, notifyCtr, waitset, woken, prog, tmp, rd, status, enqDone, snap>>
 
 Step(t) == Start(t) \/ ELock(t) \/ ECs(t) \/ NQ(t) \/ NEc(t) \/ NCnt(t) \/ NNotify(t) \/ NEnd(t)
-           \/ DInc(t) \/ DLock(t) \/ DDec(t) \/ DCnt(t) \/ DQ(t) \/ DEc(t)
+           \/ DInc(t) \/ DLock(t) \/ DDec(t) \/ DDecLoad(t) \/ DDecStore(t) \/ DCnt(t) \/ DQ(t) \/ DEc(t)
            \/ PPre(t) \/ PInc(t) \/ PLock(t) \/ PCs(t) \/ PDisp(t) \/ PDec(t)
            \/ TPre(t) \/ TLock(t) \/ TCs(t) \/ CPre(t) \/ CLock(t) \/ CCs(t)
            \/ OFirst(t) \/ OSecond(t)
